@@ -7,7 +7,9 @@
 // rankForKilling on the registry-created object, with the cgroup set BaseKillPlugin::run would pass
 // (PluginArgParser::parseCgroup + OomdContext::addToCacheAndGet).  Tick protocol as in Oomd::run:
 // refresh(), bumpCurrentTick(), prerun() every tick; kill_by_pg_scan additionally gets its first
-// run() (which only collects data and answers ASYNC_PAUSED) on the tick before the ranking tick.
+// run() (which only collects data and answers ASYNC_PAUSED) on the tick before the ranking tick and the
+// same sampling (BaseKillPlugin::prerunOnCgroups with pg_scan_rate) on earlier ticks.  Individual
+// siblings can have a missed read on a tick (memory.stat / io.stat absent, pgscan line missing).
 // After the ranking the statistics the plugin saw are read back from the same per-tick cache and
 // printed bit-exactly (floating-point values as IEEE bit patterns).
 #include "common.h"
@@ -70,9 +72,18 @@ void writeTick(const std::string& dir, const Json::Value& t) {
       dir + "/io.pressure",
       "some avg10=0.00 avg60=0.00 avg300=0.00 total=0\nfull avg10=" + S(t, "ip10", "0.00") +
           " avg60=" + S(t, "ip60", "0.00") + " avg300=0.00 total=1\n");
-  vh::writeFile(
-      dir + "/memory.stat",
-      "anon 0\nfile 0\npgscan " + S(t, "pgscan", "0") + "\npgsteal 0\n");
+  // "miss": a missed read on this tick - "memstat" (memory.stat absent), "nopgscan" (no pgscan line),
+  // "iostat" (io.stat absent); the cgroup itself stays valid
+  std::string miss = S(t, "miss", "");
+  if (miss == "memstat") {
+    ::unlink((dir + "/memory.stat").c_str());
+  } else if (miss == "nopgscan") {
+    vh::writeFile(dir + "/memory.stat", "anon 0\nfile 0\npgsteal 0\n");
+  } else {
+    vh::writeFile(
+        dir + "/memory.stat",
+        "anon 0\nfile 0\npgscan " + S(t, "pgscan", "0") + "\npgsteal 0\n");
+  }
   std::string io;
   // [[dev, rbytes, wbytes, rios, wios, dbytes, dios], ...] as strings, in file order
   for (const auto& a : t["io"]) {
@@ -80,7 +91,11 @@ void writeTick(const std::string& dir, const Json::Value& t) {
         " rios=" + a[3].asString() + " wios=" + a[4].asString() + " dbytes=" + a[5].asString() +
         " dios=" + a[6].asString() + "\n";
   }
-  vh::writeFile(dir + "/io.stat", io);
+  if (miss == "iostat") {
+    ::unlink((dir + "/io.stat").c_str());
+  } else {
+    vh::writeFile(dir + "/io.stat", io);
+  }
 }
 
 void setPref(const std::string& dir, const std::string& pref) {
@@ -188,6 +203,10 @@ void runScenario(const Json::Value& sc, Json::Value& out, const std::string& top
     if (plugin == "kill_by_pg_scan" && t == nticks - 2) {
       auto r = bp->run(ctx);
       out["first_run"] = (int)r;
+    } else if (plugin == "kill_by_pg_scan" && t < nticks - 2) {
+      // earlier firings of the action: the sampling statement of KillPgScan::run, on the plugin's own cgroup set
+      // (calling run() itself here would already rank and dry-kill)
+      kp->prerunOnCgroups(ctx, [](const auto& c) { c.pg_scan_rate(); });
     }
     if (t != nticks - 1) continue;
 
